@@ -38,10 +38,15 @@ def program(mapping: str, ndef: int, k: int) -> str:
         lines += [".scope tools {", "entry:", "rtl", "}", "jsr.l tools.entry"]
     if k % 4 == 3:
         lines += [".ascii 'front end'", "{", "inner:", ".dl inner", "}"]
-    lines += [f"*=0x{edge:06x}", "edge:", ".dl edge", "crossed:", ".dl crossed"]
+    sections = [[f"*=0x{edge:06x}", "edge:", ".dl edge", "crossed:", ".dl crossed"]]
     if k % 2:
-        lines += [f"*=0x{other + 0x10 * k:06x}", "@=0x7e2000", "ram_code:", "lda.l ram_code", ".dl ram_code"]
-    lines += [f"*=0x{a + 0x40:06x}", "after:", ".db 0xAA"]   # overwrites part of the first block: last write wins
+        sections.append([f"*=0x{other + 0x10 * k:06x}", "@=0x7e2000", "ram_code:", "lda.l ram_code", ".dl ram_code"])
+    sections.append([f"*=0x{a + 0x40:06x}", "after:", ".db 0xAA"])   # overwrites part of the first block: last write wins
+    sections.append([f"*=0x{other + 0x8000:06x}", ".db 0x5a"])           # a high block
+    # the order in which the positions are visited rotates with k (ascending, middle-low-high, high first, ...)
+    r = (k // 2) % len(sections)
+    for sec in sections[r:] + sections[:r]:
+        lines += sec
     return "\n".join(lines) + "\n"
 
 
